@@ -208,6 +208,20 @@ fn main() {
             }
             std::process::exit(0);
         }
+        b"@stubborn" => {
+            // keeps writing to stdout whatever write() says (a program that ignores write errors): only a signal ends it
+            // (the Rust runtime ignores SIGPIPE before `main`: put back what this program was started with)
+            if unsafe { EARLY_IGN } & (1u64 << (libc::SIGPIPE - 1)) == 0 {
+                unsafe { libc::signal(libc::SIGPIPE, libc::SIG_DFL) };
+            }
+            let chunk = vec![b's'; 4096];
+            loop {
+                let w = unsafe { libc::write(1, chunk.as_ptr() as *const _, chunk.len()) };
+                if w <= 0 {
+                    std::thread::sleep(std::time::Duration::from_millis(1));
+                }
+            }
+        }
         b"@gen" => {
             // write argv[3] bytes to stdout, then exit; argv[2] is only a tag
             let mut left: usize = arg(3).parse().unwrap_or(0);
